@@ -273,7 +273,38 @@ class StmtMixin:
         return out
 
     def st_Try(self, node, st):
-        raise Unsupported("try statement", node)
+        """try/except/finally: exceptions are the RAISE outcomes of the body (by class name)"""
+        if node.orelse:
+            raise Unsupported("try ... else", node)
+        out = []
+        for s, oc in self.exec_block(node.body, st):
+            if oc[0] != RAISE:
+                out.append((s, oc))
+                continue
+            handled = False
+            for h in node.handlers:
+                names = []
+                if h.type is None:
+                    names = None
+                elif isinstance(h.type, ast.Tuple):
+                    names = [ast.unparse(e) for e in h.type.elts]
+                else:
+                    names = [ast.unparse(h.type)]
+                if names is None or oc[1] in names or "Exception" in names or "BaseException" in names:
+                    if h.name:
+                        s.locals[h.name] = VStr(oc[1])
+                    out.extend(self.exec_block(h.body, s))
+                    handled = True
+                    break
+            if not handled:
+                out.append((s, oc))
+        if node.finalbody:
+            fin = []
+            for s, oc in out:
+                for s2, oc2 in self.exec_block(node.finalbody, s):
+                    fin.append((s2, oc if oc2[0] == NEXT else oc2))
+            out = fin
+        return out
 
     def st_Delete(self, node, st):
         for t in node.targets:
